@@ -1,4 +1,5 @@
 import Driver.OpsBits
+import Driver.OpsTemplate
 /-
   bvp_lean — line-protocol driver: one operation per input line, one canonical
   result line per operation, computed by the *model*.  Each model area has its own
@@ -9,12 +10,16 @@ open Bufr Drv
 
 structure St where
   bits : BitsSt := {}
+  tm : TmplSt := {}
 
 def step (st : St) (line : String) : St × String :=
   let toks := (line.trimAscii.toString.splitOn " ").filter (· ≠ "")
-  if toks = ["reset"] then ({}, "ok") else
+  if toks = ["reset"] then ({ tm := { sets := st.tm.sets } }, "ok") else
   match stepBits st.bits toks with
   | some (s, o) => ({ st with bits := s }, o)
+  | none =>
+  match stepTemplate st.tm toks with
+  | some (s, o) => ({ st with tm := s }, o)
   | none => (st, "bad-op")
 
 partial def loop (h : IO.FS.Stream) (out : IO.FS.Stream) (st : St) : IO Unit := do
